@@ -260,3 +260,15 @@ Theorem C07_model_is_source_cli_calculate_distance_matrix : forall (Scr Th Me Dm
   = Cli.cli_calculate_distance_matrix L a.
 Proof. exact C07SourceCli.src_cli_calculate_distance_matrix_is_model. Qed.
 Print Assumptions C07_model_is_source_cli_calculate_distance_matrix.
+
+(* ---- the constructor of MSEDistance (Generated/SrcInits.v): __init__ stores `sigmoid`, the flag the translated distance reads ---- *)
+From Batchie Require Generated.SrcInits Proofs.C07Source_Init_MSEDistance Proofs.C07Source_ConstructedMse.
+Theorem C07_model_is_source_mse_distance_init : forall sigmoid : bool, SrcInits.src_mse_distance_init sigmoid = Ok sigmoid.
+Proof. exact C07Source_Init_MSEDistance.src_mse_distance_init_stores. Qed.
+Print Assumptions C07_model_is_source_mse_distance_init.
+
+Theorem C07_source_constructed_mse_distance : forall (orc : oracle) (sigmoid : bool) (a b : list Qc), length a = length b ->
+  (dor s <- SrcInits.src_mse_distance_init sigmoid; src_mse_distance orc s a b) = mse_distance orc sigmoid a b.
+Proof. exact C07Source_ConstructedMse.constructed_mse_distance_uses_its_flag. Qed.
+Print Assumptions C07_source_constructed_mse_distance.
+
